@@ -336,9 +336,13 @@ impl IoLoop {
                 // If our credentials are bad, the socket is dropped without a message,
                 // but we can detect that if we had gotten up to the Secure state before
                 // failing.
-                return match state {
-                    HandshakeState::Secure(_, _) => InvalidCredentialsSnafu.fail(),
-                    _ => Err(err),
+                return match (state, err) {
+                    (HandshakeState::Secure(_, _), Error::UnexpectedSocketClose)
+                    | (HandshakeState::Secure(_, _), Error::IoErrorReadingSocket { .. })
+                    | (HandshakeState::Secure(_, _), Error::IoErrorWritingSocket { .. }) => {
+                        InvalidCredentialsSnafu.fail()
+                    }
+                    (_, err) => Err(err),
                 };
             }
         }
